@@ -83,10 +83,10 @@ type ClusterOpts struct {
 	// the common client passphrase "pass").
 	DistinctGenPass bool
 	Dir             string
-	IDs         []uint64
-	Permissions map[string][]*checker.Permissions
-	ProcessOp   []standardprocess.Parameter
-	NDAccounts  int // number of accounts created in nd wallet "N" of each instance
+	IDs             []uint64
+	Permissions     map[string][]*checker.Permissions
+	ProcessOp       []standardprocess.Parameter
+	NDAccounts      int // number of accounts created in nd wallet "N" of each instance
 	// NDWallets creates further nd wallets with the named accounts (keys from DetKey("ndw-<wallet>", i)).
 	NDWallets map[string][]string
 }
